@@ -1034,6 +1034,61 @@ func ruleGlobals(c *Ctx) {
 						}
 					}
 				}
+				// the memory a slice- or map-typed variable refers to is not handed on: a loaded value
+				// that is stored into another object, appended onto, or returned lets later code write
+				// (append within capacity, element stores) into memory every call shares
+				if isSliceOrMap(et) {
+					for _, fn := range a.fns {
+						if fn.Name() == "init" && fn.Parent() == nil {
+							continue
+						}
+						allInstrs(fn, func(i ssa.Instruction) {
+							ld, ok := i.(*ssa.UnOp)
+							if !ok || ld.Op != token.MUL || ld.X != ssa.Value(g) {
+								return
+							}
+							seen := map[ssa.Value]bool{}
+							var follow func(v ssa.Value)
+							follow = func(v ssa.Value) {
+								if seen[v] || v.Referrers() == nil {
+									return
+								}
+								seen[v] = true
+								for _, r := range *v.Referrers() {
+									switch x := r.(type) {
+									case *ssa.Slice:
+										if x.X == v {
+											follow(x)
+										}
+									case *ssa.ChangeType:
+										follow(x)
+									case *ssa.Phi:
+										follow(x)
+									case *ssa.Store:
+										if x.Val == v {
+											if al, isAl := rootOfAddr(x.Addr).(*ssa.Alloc); isAl && !al.Heap {
+												continue
+											}
+											escapes = append(escapes, "the memory it refers to is stored into another object at "+b.posOf(x)+" (later writes through that object — append within capacity, element stores — land in memory every call shares)")
+										}
+									case *ssa.Return:
+										if fn.Parent() == nil && token.IsExported(fn.Name()) {
+											escapes = append(escapes, "the memory it refers to is returned to the caller at "+b.posOf(x))
+										}
+									case *ssa.Call:
+										if bi, isB := x.Call.Value.(*ssa.Builtin); isB && bi.Name() == "append" && len(x.Call.Args) > 0 && x.Call.Args[0] == v {
+											if sl, isSl := et.Underlying().(*types.Slice); isSl && !isConstLenZeroCap(b, g) {
+												_ = sl
+												elemWrites = append(elemWrites, "appended onto at "+b.posOf(x)+" (writes into the shared backing array while capacity lasts)")
+											}
+										}
+									}
+								}
+							}
+							follow(ld)
+						})
+					}
+				}
 				if n, ok := et.(*types.Named); ok && isSyncContainer(et) && n.Obj().Name() == "Map" && extraGlobalsHook != nil {
 					extraGlobalsHook(c, b, pkg, lab, g)
 				}
@@ -1181,17 +1236,22 @@ func reachableAfter(b *Body, from ssa.Instruction) map[ssa.Instruction]bool {
 }
 
 func rulePool(c *Ctx) {
-	b := c.V5
-	if b == nil {
-		return
+	for _, b := range c.bodies() {
+		if b.Codec != nil {
+			rulePoolOver(c, b, b.srcFuncs(b.Codec), "codec")
+		}
+		rulePoolOver(c, b, b.srcFuncs(b.Lib), b.Name)
 	}
+}
+
+func rulePoolOver(c *Ctx, b *Body, fns []*ssa.Function, lab string) {
 	l := c.L
 	// the lastKeys exception is structural: see below
 	// acquire functions: return (a type assertion of) a Pool.Get result; release
 	// functions: hand a parameter to Pool.Put.
 	acquire := map[*ssa.Function]string{}
 	release := map[*ssa.Function]int{}
-	for _, fn := range b.srcFuncs(b.Codec) {
+	for _, fn := range fns {
 		allInstrs(fn, func(i ssa.Instruction) {
 			call, ok := i.(*ssa.Call)
 			if !ok {
@@ -1228,7 +1288,7 @@ func rulePool(c *Ctx) {
 		}
 		return nil, false
 	}
-	for _, fn := range b.srcFuncs(b.Codec) {
+	for _, fn := range fns {
 		var gets []*ssa.Call
 		allInstrs(fn, func(i ssa.Instruction) {
 			if call, ok := i.(*ssa.Call); ok {
@@ -1294,7 +1354,7 @@ func rulePool(c *Ctx) {
 				}
 			}
 			if returnsObj {
-				l.add("R-POOL", "codec", base+": ownership", b.posOf(g), Discharged, "constructor: the pooled object is returned to the caller, whose own Get-window obligations are generated at its call sites (callers: "+strings.Join(b.callersOf(fn), ", ")+")", true)
+				l.add("R-POOL", lab, base+": ownership", b.posOf(g), Discharged, "constructor: the pooled object is returned to the caller, whose own Get-window obligations are generated at its call sites (callers: "+strings.Join(b.callersOf(fn), ", ")+")", true)
 				// treat callers of the constructor as Get sites
 				continue
 			}
@@ -1335,16 +1395,27 @@ func rulePool(c *Ctx) {
 					}
 				}
 			}
+			if deferred && len(puts) > 0 {
+				bad = "the object is handed back at " + b.posOf(puts[0]) + " and again by the deferred Put when the function returns: the pool then holds it twice, and two later calls get the same object"
+			}
+			for _, p := range puts {
+				after := reachableAfter(b, p)
+				for _, q := range puts {
+					if q != p && after[q] {
+						bad = "the object is handed back at " + b.posOf(p) + " and again at " + b.posOf(q) + ": the pool then holds it twice, and two later calls get the same object"
+					}
+				}
+			}
 			key := base + ": no use after Put"
 			switch {
 			case bad != "":
-				l.add("R-POOL", "codec", key, b.posOf(g), Violated, bad, true)
+				l.add("R-POOL", lab, key, b.posOf(g), Violated, bad, true)
 			case deferred:
-				l.add("R-POOL", "codec", key, b.posOf(g), Discharged, "Put is deferred: it runs after the last use, on every exit", true)
+				l.add("R-POOL", lab, key, b.posOf(g), Discharged, "Put is deferred: it runs after the last use, on every exit", true)
 			case len(puts) > 0:
-				l.add("R-POOL", "codec", key, b.posOf(g), Discharged, fmt.Sprintf("%d direct Put call(s); no instruction reachable after any of them uses the object", len(puts)), true)
+				l.add("R-POOL", lab, key, b.posOf(g), Discharged, fmt.Sprintf("%d direct Put call(s); no instruction reachable after any of them uses the object", len(puts)), true)
 			default:
-				l.add("R-POOL", "codec", key, b.posOf(g), Discharged, "the object is never Put back in this function (costs an allocation, shares nothing)", true)
+				l.add("R-POOL", lab, key, b.posOf(g), Discharged, "the object is never Put back in this function (costs an allocation, shares nothing)", true)
 			}
 
 			// not stored anywhere that outlives the call
@@ -1369,9 +1440,9 @@ func rulePool(c *Ctx) {
 			})
 			key = base + ": not retained"
 			if bad != "" {
-				l.add("R-POOL", "codec", key, b.posOf(g), Violated, bad, true)
+				l.add("R-POOL", lab, key, b.posOf(g), Violated, bad, true)
 			} else {
-				l.add("R-POOL", "codec", key, b.posOf(g), Discharged, "no store of the object (or of a reference derived from it) outside the object itself and locals", true)
+				l.add("R-POOL", lab, key, b.posOf(g), Discharged, "no store of the object (or of a reference derived from it) outside the object itself and locals", true)
 			}
 
 			// no returned value aliases the object
@@ -1384,12 +1455,12 @@ func rulePool(c *Ctx) {
 					key := fmt.Sprintf("%s: result %d of return #%s does not alias the pooled object", base, ri, b.retOrdinal(r))
 					if isObj(rv) {
 						if ok, why := b.lastKeysException(rv); ok {
-							l.add("R-POOL", "codec", key, b.posOf(r), Excepted, why, true)
+							l.add("R-POOL", lab, key, b.posOf(r), Excepted, why, true)
 						} else {
-							l.add("R-POOL", "codec", key, b.posOf(r), Violated, "the returned "+typeShort(rv.Type())+" refers to memory owned by the pooled object: the next call that gets the object overwrites the caller's result", true)
+							l.add("R-POOL", lab, key, b.posOf(r), Violated, "the returned "+typeShort(rv.Type())+" refers to memory owned by the pooled object: the next call that gets the object overwrites the caller's result", true)
 						}
 					} else {
-						l.add("R-POOL", "codec", key, b.posOf(r), Discharged, "result is "+describeValue(rv)+", not derived from the pooled object", true)
+						l.add("R-POOL", lab, key, b.posOf(r), Discharged, "result is "+describeValue(rv)+", not derived from the pooled object", true)
 					}
 				}
 			}
@@ -1417,7 +1488,45 @@ func (b *Body) lastKeysException(rv ssa.Value) (bool, string) {
 	base, fr, ok := fieldLoad(rv)
 	_ = base
 	if !ok {
-		return false, ""
+		// the result of a codec helper applied to the pooled object: each value the helper can
+		// return must itself qualify (decodeIntoWithKeys returns d.lastKeys)
+		var call *ssa.Call
+		idx := 0
+		switch x := rv.(type) {
+		case *ssa.Extract:
+			call, _ = x.Tuple.(*ssa.Call)
+			idx = x.Index
+		case *ssa.Call:
+			call = x
+		}
+		if call == nil {
+			return false, ""
+		}
+		f := call.Call.StaticCallee()
+		if f == nil || f.Pkg != b.Codec || len(f.Blocks) == 0 {
+			return false, ""
+		}
+		why := ""
+		n := 0
+		for _, r := range liveReturns(f) {
+			if idx >= len(r.Results) {
+				return false, ""
+			}
+			v := r.Results[idx]
+			if isNilConst(v) {
+				continue
+			}
+			ok2, w := b.lastKeysException(v)
+			if !ok2 {
+				return false, w
+			}
+			why = w
+			n++
+		}
+		if n == 0 {
+			return false, ""
+		}
+		return true, why + " (handed on by " + fname(f) + ")"
 	}
 	if _, isSlice := rv.Type().Underlying().(*types.Slice); !isSlice {
 		return false, ""
@@ -1500,3 +1609,15 @@ func freshSliceIn(v ssa.Value, seen map[ssa.Value]bool) bool {
 	}
 	return false
 }
+
+
+func isSliceOrMap(t types.Type) bool {
+	switch t.Underlying().(type) {
+	case *types.Slice, *types.Map:
+		return true
+	}
+	return false
+}
+
+// isConstLenZeroCap: placeholder for globals known to have no spare capacity (none today).
+func isConstLenZeroCap(b *Body, g *ssa.Global) bool { return false }
